@@ -11,6 +11,7 @@ import sys
 import time
 from concurrent.futures import ThreadPoolExecutor
 
+sys.set_int_max_str_digits(0)
 VERIF = os.path.dirname(os.path.dirname(os.path.abspath(__file__)))
 REPO = "/repo"
 COQ = os.path.join(VERIF, "coq")
@@ -68,7 +69,7 @@ def run_impl(lines, release=False, binary="impl_run", env=None, shards=JOBS):
     lines = list(lines)
     if not lines:
         return []
-    n = max(1, min(shards, (len(lines) + 199) // 200))
+    n = max(1, min(shards, (len(lines) + 39) // 40))
     chunks = [lines[i::n] for i in range(n)]
 
     def one(chunk):
@@ -227,7 +228,8 @@ def coq_eval_cases(cases, label, shard_size=250):
     for f in os.listdir(CASES):
         if f.startswith("cases_%s_" % label):
             os.remove(os.path.join(CASES, f))
-    shards = [list(range(i, min(i + shard_size, len(cases)))) for i in range(0, len(cases), shard_size)]
+    shard_size = max(20, min(shard_size, -(-len(cases) // JOBS)))
+    shards = [list(range(k, len(cases), max(1, -(-len(cases) // shard_size)))) for k in range(max(1, -(-len(cases) // shard_size)))]
     # balance: interleave so that expensive neighbours spread out
     files = []
     for k, idxs in enumerate(shards):
